@@ -82,7 +82,90 @@ func shortElems[T emulated.FieldParams](rep *Report, name string, rng *RNG) {
 	}
 }
 
+type shortSubCircuit[T emulated.FieldParams] struct {
+	X, Y  frontend.Variable
+	D, N  emulated.Element[T] `gnark:",public"`
+	nbits int
+}
+
+func (c *shortSubCircuit[T]) Define(api frontend.API) error {
+	f, err := emulated.NewField[T](api)
+	if err != nil {
+		return err
+	}
+	a := f.FromBits(api.ToBinary(c.X, c.nbits)...)
+	b := f.FromBits(api.ToBinary(c.Y, c.nbits)...)
+	f.AssertIsEqual(f.Sub(a, b), &c.D)
+	f.AssertIsEqual(f.Neg(b), &c.N)
+	return nil
+}
+
+// Sub / Neg of elements that both sit on fewer limbs than the modulus
+func shortSubs[T emulated.FieldParams](rep *Report, name string, rng *RNG) {
+	var t T
+	q, w, nl := t.Modulus(), int(t.BitsPerLimb()), int(t.NbLimbs())
+	for k := 1; k < nl; k++ {
+		nbits := k * w
+		if nbits > 250 {
+			break
+		}
+		lim := new(big.Int).Lsh(big.NewInt(1), uint(nbits))
+		for trial := 0; trial < 2; trial++ {
+			x, y := rng.Big(lim), rng.Big(lim)
+			if trial == 1 {
+				x, y = big.NewInt(3), new(big.Int).Sub(lim, big.NewInt(1))
+			}
+			d := new(big.Int).Sub(x, y)
+			d.Mod(d, q)
+			ng := new(big.Int).Neg(y)
+			ng.Mod(ng, q)
+			for _, wrong := range []bool{false, true} {
+				dd := d
+				if wrong {
+					dd = new(big.Int).Add(d, big.NewInt(1))
+					dd.Mod(dd, q)
+				}
+				asg := &shortSubCircuit[T]{X: x, Y: y, D: emulated.ValueOf[T](dd), N: emulated.ValueOf[T](ng), nbits: nbits}
+				for _, mode := range []string{"engine", "r1cs"} {
+					if mode == "r1cs" && (trial == 1 || k > 2) {
+						continue
+					}
+					var err error
+					pm := catchPanic(func() {
+						if mode == "engine" {
+							err = test.IsSolved(&shortSubCircuit[T]{nbits: nbits}, asg, bnQ)
+						} else {
+							var ccs constraint.ConstraintSystem
+							ccs, err = frontend.Compile(bnQ, r1cs.NewBuilder[constraint.U64], &shortSubCircuit[T]{nbits: nbits})
+							if err == nil {
+								wit, _ := frontend.NewWitness(asg, bnQ)
+								if obs := SolveCapture(ccs, wit, 1); obs.Class != "ok" {
+									err = fmt.Errorf("%s %s", obs.Class, obs.Msg)
+								}
+							}
+						}
+					})
+					desc := map[string]interface{}{"field": name, "limbs": k, "x": x.String(), "y": y.String(), "wrong": wrong, "mode": mode}
+					rep.Eval(fmt.Sprintf("shortsub|%s|%d|%d|%v|%s", name, k, trial, wrong, mode), true)
+					rep.Count("short-sub:" + mode)
+					switch {
+					case pm != "":
+						rep.Fail("c12:short-operands:panic", pm, desc)
+					case !wrong && err != nil:
+						rep.Fail("c12:short-operands:rejects-right", "Sub / Neg of elements on fewer limbs than the modulus: the right result is rejected: "+shortErr(err), desc)
+					case wrong && err == nil:
+						rep.Fail("c12:short-operands:accepts-wrong", "Sub of elements on fewer limbs than the modulus: a wrong difference is accepted", desc)
+					}
+				}
+			}
+		}
+	}
+}
+
 func c12ShortElems(rep *Report, rng *RNG) {
+	shortSubs[emulated.Secp256k1Fp](rep, "secp256k1.Fp", rng)
+	shortSubs[emulated.BLS12381Fp](rep, "bls12-381.Fp", rng)
+	shortSubs[c12Odd](rep, "custom 2^127-1 (3x48)", rng)
 	shortElems[emulated.Secp256k1Fp](rep, "secp256k1.Fp", rng)
 	shortElems[emulated.BLS12381Fp](rep, "bls12-381.Fp", rng)
 	shortElems[emulated.Goldilocks](rep, "goldilocks", rng)
